@@ -210,6 +210,68 @@ func (r *rewriter) rewriteCall(c *astutil.Cursor, call *ast.CallExpr) {
 	}
 }
 
+// atomicAddr returns an expression for the address of the variable an atomic call operates on, or nil.
+func (r *rewriter) atomicAddr(call *ast.CallExpr, sig *types.Signature) ast.Expr {
+	if sig == nil {
+		return nil
+	}
+	if sig.Recv() == nil {
+		if len(call.Args) == 0 {
+			return nil
+		}
+		return cloneSimple(call.Args[0])
+	}
+	sel, ok := call.Fun.(*ast.SelectorExpr)
+	if !ok {
+		return nil
+	}
+	x := cloneSimple(sel.X)
+	if x == nil {
+		return nil
+	}
+	t := r.typeOf(sel.X)
+	if t == nil {
+		return nil
+	}
+	if _, isPtr := t.Underlying().(*types.Pointer); isPtr {
+		return x
+	}
+	if _, isSel := sel.X.(*ast.SelectorExpr); !isSel {
+		if _, isID := sel.X.(*ast.Ident); !isID {
+			return nil
+		}
+	}
+	return &ast.UnaryExpr{Op: token.AND, X: x}
+}
+
+// cloneSimple copies an expression made of identifiers, field selections, dereferences, address-of, parentheses and
+// conversions to named or pointer types; nil for anything else (calls, index expressions, literals).
+func cloneSimple(e ast.Expr) ast.Expr {
+	switch x := e.(type) {
+	case *ast.Ident:
+		return ast.NewIdent(x.Name)
+	case *ast.SelectorExpr:
+		if in := cloneSimple(x.X); in != nil {
+			return &ast.SelectorExpr{X: in, Sel: ast.NewIdent(x.Sel.Name)}
+		}
+	case *ast.StarExpr:
+		if in := cloneSimple(x.X); in != nil {
+			return &ast.StarExpr{X: in}
+		}
+	case *ast.ParenExpr:
+		if in := cloneSimple(x.X); in != nil {
+			return &ast.ParenExpr{X: in}
+		}
+	case *ast.UnaryExpr:
+		if x.Op == token.AND {
+			if in := cloneSimple(x.X); in != nil {
+				return &ast.UnaryExpr{Op: token.AND, X: in}
+			}
+		}
+	}
+	return nil
+}
+
 func hasMethods(it *types.Interface, names ...string) bool {
 	for _, n := range names {
 		found := false
@@ -228,6 +290,21 @@ func hasMethods(it *types.Interface, names ...string) bool {
 // wrapYield replaces call by func() T { Yield(site); return call }().
 func (r *rewriter) wrapYield(c *astutil.Cursor, call *ast.CallExpr, kind string, sig *types.Signature) {
 	yield := &ast.ExprStmt{X: r.rtCall("Yield", r.site(call, kind))}
+	if kind == "atomic" {
+		// the variable operated on, where it can be named without side effects: atomics synchronise per variable
+		if addr := r.atomicAddr(call, sig); addr != nil {
+			// a pure load acquires what earlier stores released and releases nothing itself
+			load := "false"
+			if sel, ok := call.Fun.(*ast.SelectorExpr); ok {
+				switch n := sel.Sel.Name; {
+				case strings.HasPrefix(n, "Load"), n == "IsSet", n == "IsNotSet":
+					load = "true"
+				}
+			}
+			yield = &ast.ExprStmt{X: r.rtCall("YieldAtomic", r.site(call, kind), addr, ast.NewIdent(load))}
+			st.AtomicAddressed++
+		}
+	}
 	// statement context: insert before
 	if es, ok := c.Parent().(*ast.ExprStmt); ok && es.X == call {
 		lit := &ast.FuncLit{Type: &ast.FuncType{Params: &ast.FieldList{}}, Body: &ast.BlockStmt{List: []ast.Stmt{yield, &ast.ExprStmt{X: call}}}}
